@@ -42,6 +42,31 @@ theorem gen_w3j_out_of_range (ws : Nat) (size j2 j3 m2 m3 : Int) (st : φ)
     simp -zeta only [he, if_true]
     rfl
 
+/-- `determine_signs`' test (also written out in the single-term branch): the value and `(-1)^k` have opposite signs -/
+def signCond (x : α) (k : Int) : Bool :=
+  ((Scalar.lt x (Scalar.ofInt (0 : Int) : α)) && (decide ((((-1 : Int) ^ (Int.natAbs k)) > (0 : Int)))))
+    || ((Scalar.lt (Scalar.ofInt (0 : Int) : α) x) && (decide ((((-1 : Int) ^ (Int.natAbs k)) < (0 : Int)))))
+
+/-- a single admissible `j1` (`j2 + j3 = max(|j2-j3|, |m2+m3|)`): after the zeroing the method stores `1/√(2 j_min + 1)` at `j_min` and flips its
+    sign when it disagrees with `(-1)^(j2-j3+m2+m3)` — nothing else -/
+theorem gen_w3j_single (ws : Nat) (size j2 j3 m2 m3 : Int) (st : φ)
+    (h' : ¬ (((Int.natAbs m2 : Nat) : Int) > j2 ∨ ((Int.natAbs m3 : Nat) : Int) > j3))
+    (he : j2 + j3 = max ((Int.natAbs (j2 - j3) : Nat) : Int) ((Int.natAbs (m2 + m3) : Nat) : Int)) :
+    Gen.Wigner3jCalculator_calculate (α := α) ws size j2 j3 m2 m3 st
+      = (let jmin : Int := max ((Int.natAbs (j2 - j3) : Nat) : Int) ((Int.natAbs (m2 + m3) : Nat) : Int)
+         let st1 : φ := fwr (α := α) (zeroed α ws size st) ws ((0 : Int) + jmin)
+           ((Scalar.ofInt (1 : Int) : α) /. (Scalar.sqrt (((Scalar.ofInt (2 : Int) : α) *. (Scalar.ofInt jmin : α)) +. (Scalar.ofInt (1 : Int) : α))))
+         if signCond (frd (α := α) st1 ws ((0 : Int) + jmin)) (((j2 - j3) + m2) + m3) = true
+         then fwr (α := α) st1 ws ((0 : Int) + jmin) ((frd (α := α) st1 ws ((0 : Int) + jmin)) *. (Scalar.neg (Scalar.ofInt (1 : Int) : α)))
+         else st1) := by
+  unfold Gen.Wigner3jCalculator_calculate zeroed
+  simp -zeta only [h', if_false]
+  extract_lets (onlyGivenNames := true) m1 a b c d e
+  have h2 : e = d := he
+  have h1 : ¬ (d < d) := lt_irrefl d
+  simp -zeta only [h2, h1, if_false, if_true]
+  rfl
+
 /-- a run of stores of doubles -/
 theorem frun_set (cnt : Nat) (A : Nat) (i0 : Int) (val : Nat → α) (st : φ) (a : Nat) (i : Int) :
     frd (α := α) (loopN cnt (fun k s => fwr (α := α) s A (i0 + (k : Int)) (val k)) st) a i
